@@ -37,6 +37,11 @@ def main():
         return mod.main(a.tier, replay=a.replay, selftest=a.selftest)
     except vlib.ToolError as e:
         print("TOOL-ERROR %s: %s" % (prop, e), file=sys.stderr)
+        # violations already reported (VIOLATION lines with replay files are out) stay violations: a later part
+        # of the check that could not run does not turn them into a tool error
+        if vlib.CURRENT is not None and vlib.CURRENT.violations:
+            print("[%s] %d violation(s) before the tool error" % (prop, len(vlib.CURRENT.violations)), file=sys.stderr)
+            return 1
         return 2
     except Exception:
         traceback.print_exc()
